@@ -61,6 +61,7 @@ def check(rep):
               text=f"expose={info.get('expose')}")
     rep.assume("NOT decided: interpreter limits (recursion depth, CPython's nesting limits) for sizes beyond the explored family; "
                "run-time TypeError from type-incompatible inputs")
+    ctx.raise_deferred()
     return ("Decides that no sentence of the grammar can be mis-tokenised (every deviation from maximal munch and every token "
             "boundary inside a word is found by product-automaton search with a witness; no dead rule; every terminal has an "
             "emitting rule), that the LALR table has no conflict left to default resolution and accepts every reference sentence "
